@@ -134,6 +134,15 @@ type keptSig struct {
 	was  []byte
 }
 
+func identMode(sk *big.Int, err error) {
+	if sk.Sign() != 0 {
+		panic("bad case line: identity key mode with a non-zero secret")
+	}
+	if err != nil {
+		panic("bad case line: identity key encoding rejected: " + err.Error())
+	}
+}
+
 func verdictOf(err error) string {
 	if err == nil {
 		return "accept"
@@ -157,7 +166,17 @@ func evmVerdict(skr *big.Int, msg, sig []byte) (bool, string) {
 	if r1 == nil {
 		return false, ""
 	}
-	return evmPredicate(r1, bnref.Enc2EVM(bnref.Mul2(skr, bnref.G2Gen())), msg)
+	evm, e := evmPredicate(r1, bnref.Enc2EVM(bnref.Mul2(skr, bnref.G2Gen())), msg)
+	if e != "" {
+		return evm, e
+	}
+	// the precompile on amd64 is go-ethereum's cloudflare code, of the same lineage as group/bn256: also ask the
+	// pairing-free definition S == (sk·h)·G1 (math/big only; exact because the harness knows the secret)
+	k := new(big.Int).Mul(skr, hashScalar(msg))
+	if def := bytes.Equal(r1, bnref.Enc1(bnref.Mul1(k.Mod(k, bnref.Rn), bnref.G1Gen()))); def != evm {
+		return evm, fmt.Sprintf("c06-oracles-disagree: ecPairing precompile says %v, S == sk·H(m) by math/big is %v", evm, def)
+	}
+	return evm, ""
 }
 
 var flushMsg = []byte("c06 history: a call on a private message before every history")
@@ -220,6 +239,18 @@ func execHist(w []string) (res h.Result) {
 				}
 			case "set":
 				X.Set(suite.G2().Point().Mul(scalar(sk), nil))
+			// the other encodings / constructions of the IDENTITY key the library accepts (sk must be 0):
+			case "unz": // 0x01 ‖ 128 zero bytes
+				identMode(sk, X.UnmarshalBinary(append([]byte{1}, make([]byte, 128)...)))
+			case "unj": // 0x00 ‖ junk: the tag alone decides
+				identMode(sk, X.UnmarshalBinary(append([]byte{0}, bytes.Repeat([]byte{0xa5, byte(k)}, 64)...)))
+			case "null":
+				identMode(sk, nil)
+				X.Null()
+			case "sub": // P − P computed on the object itself
+				identMode(sk, nil)
+				X.Mul(scalar(big.NewInt(int64(13+k))), nil)
+				X.Sub(X, suite.G2().Point().Set(X))
 			default:
 				panic("bad case line: key mode")
 			}
@@ -668,6 +699,13 @@ func genHistories(thorough bool, rng *h.Rng, emit func(string), sks []*big.Int) 
 			b.add("v:0:0:1")
 			b.add("w:1:%s", h.Hex(make([]byte, 64)))
 			b.add("v:0:0:1")
+			// the identity key through every other accepted encoding / construction, into an object that held a key
+			for _, im := range []string{"unz", "unj", "null", "sub"} {
+				b.add("k:0:%s:%s", sk2, modes[rng.Intn(4)])
+				b.add("k:0:0:%s", im)
+				b.add("v:0:0:1") // the all-zero signature: accepted under the identity key
+				b.add("v:0:0:2") // a real signature: rejected
+			}
 			b.add("k:0:%s:mul", rm1)
 			b.add("v:0:0:1")
 			b.add("w:1:%s", h.Hex(bnref.Enc1(validSig(rm1, m1))))
@@ -765,6 +803,13 @@ func genHistories(thorough bool, rng *h.Rng, emit func(string), sks []*big.Int) 
 			emit(b.line("tbls-shared-keys"))
 		}
 	}
+
+	// 7b. RE-FRAMING after an accepted triple (seeded C06f: a memo of accepted triples keyed by the unframed
+	// concatenation pk‖msg‖sig; pointG1.UnmarshalBinary reads the first 64 bytes of a longer buffer): after an
+	// ACCEPTED (key, msg, sig) every other split of the same byte string msg‖sig between the two arguments, and the
+	// trailing-byte variants, must be judged on their own.  The honest message ends in the encoding T of a G1 point,
+	// so that the re-split (m0, T‖S) PARSES (to T, which is not the signature on m0).
+	genResplit(thorough, rng, emit, rk)
 
 	// 8. random walks over a small pool: two message buffers (one possibly an alias of the other), one
 	// signature buffer, two key objects, one scalar object
@@ -868,5 +913,120 @@ func genHistories(thorough bool, rng *h.Rng, emit func(string), sks []*big.Int) 
 			rounds = 100
 		}
 		emit(fmt.Sprintf("par %d %s", rounds, strings.Join(cs, "/")))
+	}
+}
+
+// genResplit: see 7b in genHistories
+func genResplit(thorough bool, rng *h.Rng, emit func(string), rk func() *big.Int) {
+	reps := 3
+	if thorough {
+		reps = 20
+	}
+	for rep := 0; rep < reps; rep++ {
+		sk := rk()
+		L := 1 + rng.Intn(24)
+		m0 := rng.Bytes(L)
+		var T []byte
+		switch rep % 3 {
+		case 0:
+			T = bnref.Enc1(randCurvePoint(rng)) // an arbitrary point of the curve
+		case 1:
+			T = bnref.Enc1(validSig(rk(), m0)) // another key's signature on m0
+		default:
+			T = make([]byte, 64) // the identity's encoding
+		}
+		msg := cat(m0, T)
+		S := bnref.Enc1(validSig(sk, msg))
+		tot := L + 128
+		// (a) ONE backing array holds msg‖S (a receive buffer); the arguments are sub-slices of it
+		{
+			b := newHB()
+			b.add("k:0:%s:%s", sk, []string{"mul", "sum", "unm"}[rng.Intn(3)])
+			b.add("n:0:%d:%s", tot+8, h.Hex(cat(msg, S)))
+			b.add("sl:1:0:0:%d", L)       // m0
+			b.add("sl:2:0:%d:%d", L, tot) // T‖S
+			b.add("v:0:1:2")              // the forgery BEFORE the honest call
+			b.add("sl:3:0:0:%d", L+64)    // m0‖T
+			b.add("sl:4:0:%d:%d", L+64, tot)
+			b.add("v:0:3:4") // the honest triple: accepted
+			b.add("v:0:1:2") // the same bytes, split 64 bytes earlier
+			b.add("v:0:3:4")
+			// every other split point of msg‖S that leaves at least 64 bytes for the signature, and a few that do not
+			js := []int{0, 1, L - 1, L + 1, L + 32, L + 63, L + 65, L + 96, L + 127, tot}
+			for i := 0; i < 4; i++ {
+				js = append(js, rng.Intn(tot+1))
+			}
+			id := 10
+			for _, j := range js {
+				if j < 0 || j > tot || j == L || j == L+64 {
+					continue
+				}
+				b.add("sl:%d:0:0:%d", id, j)
+				b.add("sl:%d:0:%d:%d", id+1, j, tot)
+				b.add("v:0:%d:%d", id, id+1)
+				id += 2
+			}
+			// trailing-byte variants of the accepted triple (spare capacity of the same array)
+			b.add("sl:%d:0:%d:%d", id, L+64, tot+3) // S‖3 more bytes: parses to S, accepted
+			b.add("v:0:3:%d", id)
+			b.add("sl:%d:0:0:%d", id+1, L+65) // message one byte longer (first byte of S)
+			b.add("sl:%d:0:%d:%d", id+2, L+65, tot+1)
+			b.add("v:0:%d:%d", id+1, id+2)
+			emit(b.line("resplit-one-array"))
+		}
+		// (b) fresh buffers for every call (no aliasing): only the VALUES coincide
+		{
+			b := newHB()
+			b.add("k:0:%s:mul", sk)
+			b.add("n:1:0:%s", h.Hex(msg))
+			b.add("n:2:0:%s", h.Hex(S))
+			b.add("v:0:1:2") // accepted
+			b.add("n:3:0:%s", h.Hex(m0))
+			b.add("n:4:0:%s", h.Hex(cat(T, S)))
+			b.add("v:0:3:4") // m0 with T‖S: T is not the signature on m0
+			b.add("n:5:0:%s", h.Hex(cat(S, T)))
+			b.add("v:0:1:5") // S‖T on the honest message: accepted (trailing bytes)
+			b.add("n:6:0:%s", h.Hex(cat(msg, S[:1])))
+			b.add("n:7:0:%s", h.Hex(cat(S[1:], []byte{0})))
+			b.add("v:0:6:7")
+			b.add("n:8:0:%s", h.Hex(m0[:L-1]))
+			b.add("n:9:0:%s", h.Hex(cat(m0[L-1:], T, S)))
+			b.add("v:0:8:9")
+			// the same key object set again to the same key, then the re-split once more
+			b.add("k:0:%s:unm", sk)
+			b.add("v:0:3:4")
+			// another key object with the same key
+			b.add("k:1:%s:sum", sk)
+			b.add("v:1:3:4")
+			b.add("v:1:1:2")
+			emit(b.line("resplit-fresh"))
+		}
+		// (c) through tbls.Verify (index‖signature) and back: an accepted share, then the re-split through bls.Verify
+		// under the member key and through tbls.Verify again
+		{
+			c0, c1 := rk(), rk()
+			i := rng.Intn(5)
+			v := new(big.Int).Mul(c1, big.NewInt(int64(i+1)))
+			member := v.Add(v, c0).Mod(v, bnref.Rn)
+			Si := bnref.Enc1(validSig(member, msg))
+			idx := []byte{byte(i >> 8), byte(i)}
+			b := newHB()
+			b.add("k:0:%s:mul", c0)
+			b.add("k:1:%s:mul", c1)
+			b.add("k:2:%s:mul", member)
+			b.add("n:1:0:%s", h.Hex(msg))
+			b.add("n:2:0:%s", h.Hex(cat(idx, Si)))
+			b.add("tv:0,1:1:2") // accepted
+			b.add("n:3:0:%s", h.Hex(m0))
+			b.add("n:4:0:%s", h.Hex(cat(idx, T, Si)))
+			b.add("tv:0,1:3:4") // index ‖ T ‖ S on m0
+			b.add("n:5:0:%s", h.Hex(cat(T, Si)))
+			b.add("v:2:3:5") // the member key directly
+			b.add("n:6:0:%s", h.Hex(Si))
+			b.add("v:2:1:6") // the honest pair under the member key: accepted
+			b.add("v:2:3:5")
+			b.add("tv:0,1:3:4")
+			emit(b.line("resplit-tbls"))
+		}
 	}
 }
